@@ -920,6 +920,26 @@ func famDestr(c *fw.Ctx, emit emitFn) {
 			}
 		}
 	}
+	// more targets than elements, the source being a view of a longer array (spare capacity behind it): padding the
+	// missing values must not write into the array behind the view
+	for _, nt := range []int{2, 3, 4} {
+		ns := []string{"x", "y", "z", "w"}[:nt]
+		for _, hi := range []int64{0, 1, 2} {
+			for _, def2 := range []bool{true, false} {
+				body := []gen.Stmt{def("a", arr(gen.IntLit{V: 1}, gen.IntLit{V: 2}, gen.IntLit{V: 3})), def("b", gen.Slice{X: gen.Name{N: "a"}, Hi: gen.IntLit{V: hi}})}
+				if def2 {
+					body = append(body, gen.Define{Names: ns, X: gen.Name{N: "b"}})
+				} else {
+					for _, n := range ns {
+						body = append(body, gen.Var{N: n})
+					}
+					body = append(body, gen.Assign{T: nameExprs(ns), Op: "=", X: gen.Name{N: "b"}})
+				}
+				body = append(body, ret(gen.Arr{E: append([]gen.Expr{gen.Name{N: "a"}, gen.Name{N: "b"}}, nameExprs(ns)...)}))
+				emit(body, true)
+			}
+		}
+	}
 	// swap idiom and use of targets in the RHS
 	emit([]gen.Stmt{def("a", gen.IntLit{V: 1}), def("b", gen.IntLit{V: 2}), gen.Assign{T: nameExprs([]string{"a", "b"}), Op: "=", X: arr(gen.Name{N: "b"}, gen.Name{N: "a"})}, ret(arr(gen.Name{N: "a"}, gen.Name{N: "b"}))}, true)
 	emit([]gen.Stmt{def("f", fn(nil, false, ret(arr(gen.IntLit{V: 0}, gen.Undef{}, gen.StrLit{V: "e"})))), gen.Define{Names: []string{"x", "y", "z"}, X: call("f")}, ret(arr(gen.Name{N: "x"}, gen.Name{N: "y"}, gen.Name{N: "z"}))}, true)
